@@ -7,6 +7,7 @@ package cli
 import (
 	"fmt"
 	"os"
+	"os/exec"
 	"path/filepath"
 	"strings"
 	"testing"
@@ -141,6 +142,106 @@ func TestVerifC15Deps(t *testing.T) {
 			}
 		}
 	}
+}
+
+// TestVerifC15DepsReal: the same call site with the REAL package loader. A recording `go` is first
+// on PATH: what is judged is the environment the go command actually received (a wrapper between
+// loadPackagesWithDeps and packages.Load can still add an entry after the hardened ones).
+func TestVerifC15DepsReal(t *testing.T) {
+	r := vh.New("env-deps-real-loader")
+	defer r.Write()
+	realGo, err := exec.LookPath("go")
+	if err != nil {
+		r.Fail("no go in PATH: %v", err)
+		return
+	}
+	scratch := vh.Env("SCRATCH")
+	if scratch == "" {
+		scratch = t.TempDir()
+	}
+	bindir, logdir := filepath.Join(scratch, "fakebin"), filepath.Join(scratch, "golog")
+	os.MkdirAll(bindir, 0o755)
+	os.MkdirAll(logdir, 0o755)
+	script := fmt.Sprintf("#!/bin/sh\nenv -0 > %s/env.$$.$(date +%%s%%N)\nexec %s \"$@\"\n", logdir, realGo)
+	if err := os.WriteFile(filepath.Join(bindir, "go"), []byte(script), 0o755); err != nil {
+		r.Fail("write fake go: %v", err)
+		return
+	}
+	mk := func(name string, files map[string]string) string {
+		d := filepath.Join(scratch, name)
+		for f, c := range files {
+			os.MkdirAll(filepath.Dir(filepath.Join(d, f)), 0o755)
+			os.WriteFile(filepath.Join(d, f), []byte(c), 0o644)
+		}
+		return d
+	}
+	src := "package main\n\nimport \"strings\"\n\nfunc main() { _ = strings.ToUpper(\"x\") }\n"
+	plain := mk("plain", map[string]string{"main.go": src, "go.mod": "module example.com/p\n\ngo 1.21\n"})
+	nomod := mk("nomodule", map[string]string{"main.go": src})
+	vend := mk("withvendor", map[string]string{"main.go": src, "go.mod": "module example.com/v\n\ngo 1.21\n", "vendor/modules.txt": ""})
+	saved := os.Environ()
+	restore := func() {
+		os.Clearenv()
+		for _, e := range saved {
+			if i := strings.IndexByte(e, '='); i > 0 {
+				os.Setenv(e[:i], e[i+1:])
+			}
+		}
+	}
+	defer restore()
+	idx := 0
+	for _, tgt := range []string{plain, filepath.Join(plain, "main.go"), nomod, vend} {
+		for _, amb := range [][]string{{}, {"GOFLAGS=-mod=mod", "GOPROXY=https://evil"}, {"GOFLAGS=-buildvcs=false"}} {
+			for _, transitive := range []bool{false, true} {
+				idx++
+				if !vh.Mine(idx) {
+					continue
+				}
+				restore()
+				os.Setenv("PATH", bindir+string(os.PathListSeparator)+os.Getenv("PATH"))
+				for _, e := range amb {
+					i := strings.IndexByte(e, '=')
+					os.Setenv(e[:i], e[i+1:])
+				}
+				old, _ := filepath.Glob(filepath.Join(logdir, "env.*"))
+				for _, f := range old {
+					os.Remove(f)
+				}
+				_, lerr := loadPackagesWithDeps(RealPackageLoader{}, tgt, transitive)
+				logs, _ := filepath.Glob(filepath.Join(logdir, "env.*"))
+				r.Eval()
+				rel, _ := filepath.Rel(scratch, tgt)
+				key := fmt.Sprintf("deps-real/%s/%s/transitive=%v", rel, strings.Join(amb, "|"), transitive)
+				if len(logs) == 0 {
+					r.Fail("the recording go was never run for %s (err=%v)", rel, lerr)
+					return
+				}
+				r.Nontrivial(key)
+				r.Count("go_invocations_recorded", int64(len(logs)))
+				for _, lf := range logs {
+					b, _ := os.ReadFile(lf)
+					var env []string
+					for _, e := range strings.Split(string(b), "\x00") {
+						if e != "" {
+							env = append(env, e)
+						}
+					}
+					for k, want := range c15cliWant {
+						// the go command reads the LAST entry of a key (os/exec de-duplicates that way)
+						got, ok := c15cliResolve(env, k, true, true)
+						good := ok && got == want
+						if k == "GOFLAGS" {
+							good = ok && strings.Contains(" "+got+" ", " -mod=readonly ") && !strings.Contains(got, "-mod=mod") && !strings.Contains(got, "-mod=vendor") && !strings.Contains(got, "-toolexec")
+						}
+						if !good {
+							r.Violate(key+"/"+k, fmt.Sprintf("the go command run by the real loader for %s saw %s=%q (present=%v), want %q; ambient extra=%q", rel, k, got, ok, want, amb), map[string]interface{}{"target": rel, "ambient": amb, "transitive": transitive})
+						}
+					}
+				}
+			}
+		}
+	}
+	r.Sample(map[string]interface{}{"targets": 4, "ambients": 3})
 }
 
 // c15cliAsciiFold folds ASCII letters only: environment names are compared case-insensitively the way a
